@@ -364,6 +364,9 @@ func checkInjectorCalls(fset *token.FileSet, pkgPath string, fn *ast.FuncDecl, s
 		if c.hasErr && !sig.err {
 			ec.add(notePosition(pos, fmt.Errorf("inject %s: provider for %s returns error but injection not allowed to fail", name, ts)))
 		}
+		if err := callAccessibleFrom(c, pkgPath); err != nil {
+			ec.add(notePosition(pos, fmt.Errorf("inject %s: provider for %s can't be used: %v", name, ts, err)))
+		}
 		if c.kind == valueExpr {
 			if err := accessibleFrom(c.valueTypeInfo, c.valueExpr, pkgPath); err != nil {
 				ec.add(notePosition(pos, fmt.Errorf("inject %s: value %s can't be used: %v", name, ts, err)))
